@@ -4,6 +4,7 @@ package main
 // of Drop.
 
 import (
+	"sync/atomic"
 	"context"
 	"fmt"
 	"runtime"
@@ -255,7 +256,15 @@ func (w *World) execCloseOp(ctx context.Context, toks []string) (bool, error) {
 			}
 			time.Sleep(2 * time.Millisecond)
 		}
-		w.printf("leak extra=%d kinds=%s\n", n-w.leakBase, joinOrDash(strings.Split(kinds, ",")))
+		// … and (through the pubsubcoreapi adapter) the node is no longer subscribed to anything
+		var subs int32
+		for i := 0; i < 100; i++ {
+			if subs = atomic.LoadInt32(&w.net.openSubs); subs <= 0 {
+				break
+			}
+			time.Sleep(2 * time.Millisecond)
+		}
+		w.printf("leak extra=%d kinds=%s subs=%d\n", n-w.leakBase, joinOrDash(strings.Split(kinds, ",")), subs)
 	default:
 		return false, nil
 	}
